@@ -125,7 +125,7 @@ BigWhy(exp, run) ==
 
 (* ------------------------------- the cases ------------------------------ *)
 BigHeader == [bbox |-> << >>, req |-> <<"OsmSchema-V0.6", "DenseNodes">>, opt |-> << >>, prog |-> <<2>>, src |-> << >>,
-              rts |-> << >>, rseq |-> << >>, rurl |-> << >>, zlib |-> TRUE, rev |-> FALSE]
+              rts |-> << >>, rseq |-> << >>, rurl |-> << >>, zlib |-> TRUE, rev |-> FALSE, bh |-> 5]
 BigSt == <<0, 3, 4, 5, 6, 2>>
 Step1 == [id |-> 1, cs |-> 1, ts |-> 1]
 XDense(b, g, n, cols, kv) ==
@@ -143,7 +143,7 @@ XRels(b, g, n) ==
              ver |-> 0, ts |-> 0, cs |-> 900, uid |-> 0, usid |-> 4, vis |-> TRUE,
              mems |-> << <<1, 9, 2>>, <<0, 4, 0>> >>, ee |-> FALSE]]
 \* date_granularity 1 keeps the (linearly rendered) timestamps of 9 000 consecutive elements in range
-BigBlock(b, zlib, groups) == [gran |-> << >>, latoff |-> << >>, lonoff |-> << >>, dgran |-> <<1>>, zlib |-> zlib, rev |-> FALSE, st |-> BigSt, groups |-> groups]
+BigBlock(b, zlib, groups) == [gran |-> << >>, latoff |-> << >>, lonoff |-> << >>, dgran |-> <<1>>, zlib |-> zlib, rev |-> FALSE, bh |-> 1 + b, st |-> BigSt, groups |-> groups]
 AllCols6 == <<"version", "timestamp", "changeset", "uid", "user_sid", "visible">>
 \* sizes: s = 1 gives the real-size files (> 8 000 elements per block), small s the same shapes for the design-level check
 BigFiles(s) ==
